@@ -54,12 +54,36 @@ func (c17) RunCase(c *core.Ctx) {
 
 // ---------- (1) chain fold ----------
 
+// funcWins: both Message and MessageFunc were passed to the same call - the one passed last decides (options are applied in order)
+func funcWins(o spec.TestOpts) bool {
+	if o.MsgFunc == nil {
+		return false
+	}
+	if o.Message == nil {
+		return true
+	}
+	order := o.Order
+	if order == nil {
+		order = []int{0, 1, 2, 3, 4}
+	}
+	pm, pf := -1, -1
+	for i, x := range order {
+		if x == 0 {
+			pm = i
+		}
+		if x == 1 {
+			pf = i
+		}
+	}
+	return pf > pm
+}
+
 func describeIssue(x ref.XIssue) string {
 	msg := "<default>"
-	if x.Opts.Message != nil {
-		msg = *x.Opts.Message
-	} else if x.Opts.MsgFunc != nil {
+	if funcWins(x.Opts) {
 		msg = *x.Opts.MsgFunc
+	} else if x.Opts.Message != nil {
+		msg = *x.Opts.Message
 	}
 	var params map[string]any
 	defer func() {}()
@@ -68,7 +92,7 @@ func describeIssue(x ref.XIssue) string {
 	} else if x.Test != nil {
 		params = x.Test.BuiltinParams()
 	}
-	if x.Opts.MsgFunc != nil && x.Opts.MsgFuncReads && x.Opts.Message == nil {
+	if x.Opts.MsgFuncReads && funcWins(x.Opts) {
 		var pp *string
 		if x.Opts.Path == nil {
 			np := x.Path
@@ -146,7 +170,14 @@ func c17Chain(c *core.Ctx) {
 	}
 	// message functions that read the issue they are given
 	for i := range leaf.Tests {
-		if leaf.Tests[i].Opts.MsgFunc != nil && leaf.Tests[i].Opts.Message == nil {
+		if leaf.Tests[i].PredName != "probe" && (leaf.Kind != spec.Bool || leaf.Tests[i].Op == spec.TCustom) && c.R.Intn(6) == 0 {
+			// both message options on one test, in either order: the one passed last is the test's message
+			m, f := "msg-both", "fmsg-both"
+			leaf.Tests[i].Opts.Message, leaf.Tests[i].Opts.MsgFunc = &m, &f
+			leaf.Tests[i].Opts.Order = c.R.Perm(5)
+			leaf.Tests[i].Patch = false
+		}
+		if leaf.Tests[i].Opts.MsgFunc != nil && funcWins(leaf.Tests[i].Opts) {
 			leaf.Tests[i].Opts.MsgFuncReads = true
 		}
 	}
@@ -352,6 +383,9 @@ func c17Coercer(c *core.Ctx) {
 		leafN++
 		if r.Intn(3) == 0 {
 			n.Coercer = &spec.CoercerSpec{Mark: mark(k, leafN)}
+			if k == spec.Time && r.Bool() {
+				n.Layout = "2006-01-02" // Time.Format and WithCoercer on one schema: the coercer passed last replaces coercion altogether
+			}
 		}
 		return n
 	}
@@ -492,9 +526,40 @@ func c17AliasedPointers(c *core.Ctx) bool {
 	return true
 }
 
+// c17CustomOptions: the options given to a custom schema belong to its test (the user's function); the schema's own type-mismatch
+// issue is not that test and carries none of them.
+func c17CustomOptions(c *core.Ctx) bool {
+	called := false
+	opts := [][]z.TestOption{
+		{z.Message("the function's message")},
+		{z.IssuePath("function.path"), z.IssueCode("function_code")},
+		{z.Params(map[string]any{"k": 1}), z.MessageFunc(func(e *z.ZogIssue, ctx z.Ctx) { called = true; e.SetMessage("from the function's MessageFunc") })},
+		{z.Message("m"), z.IssuePath("p"), z.Params(map[string]any{"k": 2}), z.IssueCode("cc")},
+	}[c.R.Intn(4)]
+	sch := z.CustomFunc(func(p *int, ctx z.Ctx) bool { return *p > 0 }, opts...)
+	type rec struct {
+		N int
+		S string
+	}
+	var d rec
+	m := z.Struct(z.Schema{"n": sch, "s": z.String()}).Parse(map[string]any{"n": "not an int", "s": "x"}, &d)
+	c.Eval(1)
+	all, _ := obs.CanonMap(m)
+	if len(all) != 1 || all[0].Path != "n" || all[0].Code != "coerce" || all[0].Params != "nil" && all[0].Params != "{}" || all[0].Message != "value is invalid" || called {
+		c.Violation("builder-chain|custom-schema-options-on-its-coerce-issue", map[string]any{"schema": "{n: z.CustomFunc[int](fn, <test options>), s: String()}", "input": "{n: \"not an int\", s: \"x\"}",
+			"want": "one issue: path n, code coerce, no params, the default message", "issues": obs.Multiset(all, func(ci obs.CI) string { return ci.String() }), "message_func_called": called})
+		return false
+	}
+	c.Count("custom_option_scenarios", 1)
+	return true
+}
+
 func c17Sharing(c *core.Ctx) {
 	r := c.R
 	if c.Case%10 == 5 && !c17AliasedPointers(c) {
+		return
+	}
+	if c.Case%10 == 6 && !c17CustomOptions(c) {
 		return
 	}
 	if c.Case%20 == 2 {
